@@ -363,6 +363,7 @@ class MATD3(MultiAgentRLAlgorithm):
             optim.Adam,
             networks=self.actors,
             lr=lr_actor,
+            lr_name="lr_actor",
             multiagent=True,
         )
 
@@ -370,6 +371,7 @@ class MATD3(MultiAgentRLAlgorithm):
             optim.Adam,
             networks=self.critics_1,
             lr=lr_critic,
+            lr_name="lr_critic",
             multiagent=True,
         )
 
@@ -377,6 +379,7 @@ class MATD3(MultiAgentRLAlgorithm):
             optim.Adam,
             networks=self.critics_2,
             lr=lr_critic,
+            lr_name="lr_critic",
             multiagent=True,
         )
 
